@@ -35,7 +35,7 @@ func c18Gen(r *rand.Rand, tier string) any {
 		dep := "//:nope"
 		if r.IntN(2) == 0 {
 			// a package label without a target name is not a target either
-			dep = []string{"//a", "//c", "//a/b"}[r.IntN(3)]
+			dep = []string{"//a", "//c", "//a/b", "//a/zz:default", "//zz:default"}[r.IntN(5)]
 		}
 		p.Targets[a].Deps = append(p.Targets[a].Deps, dep)
 		sc.Mode = "unknown"
